@@ -362,6 +362,13 @@ class Check:
         # case files import PyRtcmGen.Tables from self.work
         t = time.time()
         res = vlib.coqc_many(files, self.work, timeout)
+        # a shard that ran out of time (killed: no output at all) says nothing about the code: evaluate it again, alone and with a
+        # generous limit, before anything is concluded (a loaded machine must not turn into an alarm)
+        slow = [pth for pth in files if not res[pth][0] and (not res[pth][1].strip() or res[pth][1].startswith("TIMEOUT"))]
+        for pth in slow:
+            res[pth] = vlib.coqc(pth, self.work, timeout * 4)
+        if slow:
+            self.notes.append("%d correspondence shard(s) exceeded %d s under load and were re-evaluated alone" % (len(slow), timeout))
         bad = []
         ncases = 0
         for f in meta["files"]:
